@@ -53,6 +53,10 @@ Proof.
   exists rs. split; [assumption | apply to_text_concat].
 Qed.
 
+(* definitional: a list converts to itself *)
+Theorem to_formatted_text_list r ac' : to_formatted_text [] ac' (VList r) = Ok r.
+Proof. reflexivity. Qed.
+
 (* a callable is transparent (but auto_convert is not passed on) *)
 Theorem convert_call ac v : convert ac (VCall v) = convert false v.
 Proof. reflexivity. Qed.
